@@ -428,6 +428,28 @@ def adversarial(rng):
     return out
 
 
+def padded_files():
+    """VALID .xz files with long Stream Padding (the file-info decoder looks back from EOF through an 8 KiB window, so
+    whole windows of padding, windows that start inside padding, and padding at EOF / between Streams all occur).
+    Returns (name, bytes, uncompressed bytes of the FIRST Stream)."""
+    small = b"ABCDEFGH" * 4
+    blk = (block_header([(LZMA2_ID, b"\x00", None)]), lzma2_uncompressed(small), small)
+    s1 = xz_stream([blk])                 # 1 Block
+    s0 = xz_stream([])                    # empty Stream
+    big = bytes((i * 7) & 0xFF for i in range(9000))
+    sb = xz_stream([(block_header([(LZMA2_ID, b"\x00", None)]), lzma2_uncompressed(big), big)])   # > 8 KiB Stream
+    out = []
+    for n in (4, 8188, 8192, 8196, 16380, 16384, 16388, 24580):
+        out.append(("gen-pad-eof-%d" % n, s1 + bytes(n), small))
+        out.append(("gen-pad-mid-%d" % n, s1 + bytes(n) + s1, small))
+        out.append(("gen-pad-mid-eof-%d" % n, s0 + bytes(n) + s1 + bytes(n), b""))
+    # windows from EOF that start inside the padding
+    for n, tail in ((12000, s1), (8192 + 100, s1), (20000, s0), (8192, sb), (9000, s1 + bytes(8)), (30000, s1 + bytes(8192))):
+        out.append(("gen-pad-window-%d-%d" % (n, len(tail)), s1 + bytes(n) + tail, small))
+    out.append(("gen-pad-3streams", sb + bytes(8192) + s0 + bytes(16384) + s1 + bytes(8196), big))
+    return out
+
+
 def noise(rng, quick):
     out = []
     prefixes = (b"", MAGIC_H, MAGIC_H + b"\x00\x01\x69\x22\xde\x36", b"LZIP\x01\x0c", b"\x5d\x00\x00\x01\x00", b"\x00",
